@@ -345,11 +345,55 @@ def run_threads(ctx, r):
                                   {"kind": "history", "data": runner.hx(corpus[i]), "depth": None})
             for c in corpus[:5]:
                 ctx.nontrivial(b"threads" + c)
+            if rounds % 2 == 1:
+                cold_start(ctx, r, single, corpus, rounds)
             if rounds % 5 == 1:
                 ctx.sample({"dimension": "threads", "threads": 8, "inputs": len(corpus), "decoder_calls_logged": len(trace),
                             "thread_alternations_in_call_log": alternations})
     finally:
         sys.setswitchinterval(old)
+
+
+KEYWORD_RICH = (b" strlen StrLen GetModuleFileName VirtualAlloc onclose CreateObject WScript.Shell LoadLibrary "
+                b"HKEY_LOCAL_MACHINE vssadmin bitcoin Norton http://example.com/a.exe ")
+
+
+def cold_start(ctx, r, single, corpus, rounds):
+    """First use of a never-used scanner from several threads at once (anything initialised lazily on first use is
+    initialised under contention); the reference is the warmed-up scanner's result for the same text."""
+    from multidecoder.multidecoder import Multidecoder
+
+    for j in range(6):
+        data = r.choice(corpus)[:300] + KEYWORD_RICH
+        try:
+            want = dg(single.scan(data))
+        except Exception:  # noqa: BLE001
+            continue
+        fresh = Multidecoder()
+        n = 6
+        barrier = threading.Barrier(n)
+        got = {}
+
+        def work(tid):
+            barrier.wait()
+            try:
+                got[tid] = dg(fresh.scan(data))
+            except Exception as e:  # noqa: BLE001
+                got[tid] = "EXC:" + type(e).__name__
+
+        ths = [threading.Thread(target=work, args=(t,)) for t in range(n)]
+        for t in ths:
+            t.start()
+        for t in ths:
+            t.join()
+        ctx.count("cold_start_rounds")
+        ctx.evaluated(n)
+        for tid, d in got.items():
+            ctx.count("thread_results_compared")
+            if d != want:
+                ctx.violation("repro:threads:first-use", f"thread {tid} of {n} starting together on a never-used scanner got a different tree "
+                                                         f"for {data[:60]!r} ({d})", {"kind": "coldstart", "data": runner.hx(data)})
+                return
 
 
 def run_cli_dim(ctx, r, work):
@@ -382,8 +426,22 @@ def run_cli_dim(ctx, r, work):
 
 
 def replay(case, ctx):
+    import sys
+
     from multidecoder.multidecoder import Multidecoder
 
+    if case.get("kind") == "coldstart":
+        data = runner.unhx(case["data"])
+        single = Multidecoder()
+        single.scan(data)
+        old = sys.getswitchinterval()
+        sys.setswitchinterval(1e-6)
+        try:
+            for i in range(40):
+                cold_start(ctx, runner.rng(ctx.seed, "replay", i), single, [data[: -len(KEYWORD_RICH)] if data.endswith(KEYWORD_RICH) else data], i)
+        finally:
+            sys.setswitchinterval(old)
+        return
     if case.get("kind") == "history2":
         md = Multidecoder()
         md.scan(runner.unhx(case["first"]))
